@@ -430,7 +430,7 @@ func c20GenTrace(rng *Rng, degenerate bool) c20Trace {
 			bb := []int{}
 			nw := rng.Range(lo, 6)
 			if rng.Chance(10) {
-				nw = rng.Range(lo, 12)
+				nw = rng.Range(lo, 24)
 			}
 			if degenerate && rng.Chance(15) {
 				nw = 0
@@ -858,9 +858,9 @@ func runC20(r *Run, rng *Rng, replay string) {
 	os.Stdout = devnull // Driver prints the finish time with fmt.Println
 	defer func() { os.Stdout = stdout }()
 
-	nRun, nParse, nInst := 260, 150, 1500
+	nRun, nParse, nInst := 1500, 500, 6000
 	if r.Tier == "thorough" {
-		nRun, nParse, nInst = 4000, 2500, 30000
+		nRun, nParse, nInst = 20000, 6000, 100000
 	}
 	// fixed witnesses first: the degenerate traces of the finding, on small shapes
 	for _, w := range []struct {
